@@ -22,10 +22,14 @@
              | dni|dhi isColl typeOk k nvals SRC
          answer: the observation after the construction and after every op, separated by `|`
     epwwea leap off n dni…(n) dhi…(n) hoy…    lines of EPW.to_wea on integer cells of the hours off…off+n-1 (no hoy = all)
+    hoyidx ts hoybits…                        index `int(hoy * ts)` get_irradiance_value_for_hoy uses on an annual Wea
+    cliap ts leap c…                          epw_to_wea with a period TEXT (character codes c…) on a Wea of (ts, leap):
+                                              `ok stM stD stH endM endD endH ts leap overnight reversed n moy…` | err
 -/
 import Ladybug.DrvCore
 import Ladybug.Model.Wea
 import Ladybug.Model.WeaObj
+import Ladybug.Model.WeaCli
 
 open Drv Cal Wea
 
@@ -247,6 +251,25 @@ def handle (toks : List String) : String :=
       let hoys := (xs.drop (2 * n)).map Int.toNat
       showLines (epwToWea l dni dhi hoys)
     | _, _, _, _ => "bad-op"
+  | "cliap" :: ts :: leap :: rest =>
+    match ts.toNat?, bool? leap, nats rest with
+    | some ts, some l, some cs =>
+      let text := String.ofList (cs.map Char.ofNat)
+      match cliPeriod text with
+      | .error e => showE (E.ofCal e)
+      | .ok ap =>
+        match cliMoys text ts l with
+        | .error e => s!"{showE e} {showAP ap}"
+        | .ok ms => s!"ok {showAP ap} {showBool ap.isOvernight} {showBool ap.isReversed} {ms.length} " ++ joinSp (ms.map toString)
+    | _, _, _ => "bad-op"
+  | "hoyidx" :: ts :: rest =>
+    match ts.toNat?, rest.mapM floatBits? with
+    | some ts, some fs =>
+      "ok " ++ joinSp (fs.map fun f =>
+        match Py.ratOfFloatBits (f * ts.toFloat).toBits with
+        | some x => toString (getForHoyIndex x)
+        | none => "err:value")
+    | _, _ => "bad-op"
   | "getdt" :: ts :: leap :: rest =>
     match ts.toNat?, bool? leap, nats rest with
     | some ts, some l, some idx =>
